@@ -103,6 +103,36 @@ claim('C07',
       'DESIGN.md section 4 C07')
 
 
+claim('C04',
+      'TLC explores every interleaving of N workers on P slots in WorkerPool.tla (seeds drawn in dispatch '
+      'order, each chunk stored once, never more than P alive, liveness) and emits every feasible order in '
+      'which results can be stored; each order is forced on the real mapping stage through the guarded gates '
+      '(both gather paths), together with Python hash seeds and worker counts inducing the same chunks, and '
+      'Relations_Trace decides bitwise equality with the canonical run; Dispatch/Poll hook traces are '
+      'validated by WorkerPool_Trace.',
+      'Trusted: TLC, gate tokens force the schedule, projection. Exhaustive orders for N<=3 (quick) / N<=4 '
+      '(thorough). Other stages: hash seeds / worker counts are covered by their own checks as built.',
+      'TLA+ model of the dispatcher; TLC-generated schedules replayed into real multiprocessing runs; trace '
+      'validation', 'DESIGN.md section 4 C04')
+claim('C14',
+      'WorkerPool.tla with every fault plan (worker x crash point x mode) and every interleaving incl. '
+      'orphans: FailNeverReturns, RaisedHasNoResults, and under fairness FaultLeadsToRaise; all 27 plans x '
+      'P in {2,3} are injected into real mapping runs through the gates and the outcome / files left are '
+      'checked directly and as WorkerPool_Trace behaviours with the fault plan bound from the trace header.',
+      'Trusted: TLC, gates inject the failure inside the real worker process.',
+      'TLC safety + liveness on the dispatcher model; exhaustive fault injection on real code; trace validation',
+      'DESIGN.md section 4 C14')
+claim('C19',
+      'ScratchFS.tla states the file-system discipline (ownership of scratch entries, requested outputs, '
+      'inputs read-only, nothing owned at the end); TLC checks two concurrent disciplined runs with stale '
+      'entries and finds the timestamp-name collision; real stages run under strace -f and every file event '
+      'of their process tree is validated by ScratchFS_Trace for clean, stale, concurrent, after-failure and '
+      'failing histories; result digests must not depend on the history.',
+      'Trusted: TLC, strace, path classification in harness/fstrace.py. Known findings F3, F7, F11 are '
+      'reported as KNOWN-FINDING.',
+      'TLA+ file-system ownership model + syscall trace validation', 'DESIGN.md section 4 C19')
+
+
 def build():
     props = [json.loads(l) for l in open(ROOT / 'properties.jsonl')]
     checks = []
